@@ -34,7 +34,7 @@ IsArr(a) == a.k = "arr"
 \* Content::purelist_isregular of an array whose ELEMENT type is T
 RECURSIVE AllRegE(_)
 AllRegE(T) == CASE T.k = "reg" -> AllRegE(T.x)
-                [] T.k = "var" -> FALSE
+                [] T.k \in {"var", "str", "bytes"} -> FALSE        \* a string is a variable-length list of characters
                 [] T.k = "opt" -> AllRegE(T.x)
                 [] T.k = "union" -> \A j \in 1..Len(T.xs) : AllRegE(T.xs[j])
                 [] OTHER -> TRUE
